@@ -13,7 +13,7 @@ from ..histories import HistoryRunner, Profile, describe, replay_of, replay_ops
 from ..session import QUERY_READS, cfg_name, default_config
 
 SHARDS = {"quick": 8, "thorough": 16}
-TIMEOUT = {"quick": 900, "thorough": 3600}
+TIMEOUT = {"quick": 1800, "thorough": 7200}
 N_HIST = {"quick": 40, "thorough": 400}  # per config per shard
 
 CONFIGS = [
